@@ -112,12 +112,26 @@ func (c *Ctx) lexRoles0() *LexRoles {
 			}
 		}
 	}
+	// a lexer operation: a method of Lexer, or a package function whose first parameter is the lexer and
+	// which is not a state function (func(*Lexer) state) — the two spellings are interchangeable
 	isLexMethod := func(f *ssa.Function) bool {
 		recv := f.Signature.Recv()
-		if recv == nil {
-			return false
+		var t types.Type
+		if recv != nil {
+			t = recv.Type()
+		} else {
+			ps, rs := f.Signature.Params(), f.Signature.Results()
+			if ps.Len() == 0 || f == lr.LexCtor {
+				return false
+			}
+			if ps.Len() == 1 && rs.Len() == 1 && isFuncType(rs.At(0).Type()) {
+				return false // a state function
+			}
+			t = ps.At(0).Type()
+			if _, isPtr := t.(*types.Pointer); !isPtr {
+				return false
+			}
 		}
-		t := recv.Type()
 		if p, ok := t.(*types.Pointer); ok {
 			t = p.Elem()
 		}
@@ -134,8 +148,9 @@ func (c *Ctx) lexRoles0() *LexRoles {
 			case c.callsNamed(f, "unicode/utf8.DecodeLastRuneInString"):
 				lr.Backup = f
 			}
-			ps, rs := f.Signature.Params(), f.Signature.Results()
-			if ps.Len() == 1 && rs.Len() == 1 && isNamed(ps.At(0).Type(), pkgLex, "TokType") && isNamed(rs.At(0).Type(), pkgLex, "Token") {
+			rs := f.Signature.Results()
+			nonRecv := opParams(f)
+			if len(nonRecv) == 1 && rs.Len() == 1 && isNamed(nonRecv[0], pkgLex, "TokType") && isNamed(rs.At(0).Type(), pkgLex, "Token") {
 				lr.ToTok = f
 			}
 			if f.Signature.Variadic() && rs.Len() == 1 && f != lr.Next {
@@ -185,8 +200,8 @@ func (c *Ctx) lexRoles0() *LexRoles {
 		if fnPkgPath(f) != pkgLex || !isLexMethod(f) || f == lr.ToTok || f.Parent() != nil {
 			continue
 		}
-		ps := f.Signature.Params()
-		if ps.Len() != 1 || !isNamed(ps.At(0).Type(), pkgLex, "TokType") {
+		nonRecv := opParams(f)
+		if len(nonRecv) != 1 || !isNamed(nonRecv[0], pkgLex, "TokType") {
 			continue
 		}
 		if lr.ToTok != nil && c.calls(f, lr.ToTok) {
@@ -224,6 +239,27 @@ func (c *Ctx) lexRoles0() *LexRoles {
 		lr.Err = "state functions / initial state not resolved"
 	}
 	return lr
+}
+
+// selfCopy: `*a = *a` — the store-back of a named result that go/ssa emits before a return; not a write
+// of a different value.
+func selfCopy(st *ssa.Store) bool {
+	ld, ok := st.Val.(*ssa.UnOp)
+	return ok && ld.Op == token.MUL && ld.X == st.Addr
+}
+
+// opParams: the parameter types of a lexer operation without the lexer itself (receiver or first parameter).
+func opParams(f *ssa.Function) []types.Type {
+	var out []types.Type
+	ps := f.Signature.Params()
+	start := 0
+	if f.Signature.Recv() == nil {
+		start = 1
+	}
+	for i := start; i < ps.Len(); i++ {
+		out = append(out, ps.At(i).Type())
+	}
+	return out
 }
 
 func (c *Ctx) lexPreamble(r *Report, rule string) *LexRoles {
@@ -521,7 +557,7 @@ func ruleLEXTOK(c *Ctx, r *Report) {
 							}
 						}
 					case *ssa.Store:
-						if x.Addr == a {
+						if x.Addr == a && !selfCopy(x) {
 							whole = true
 						}
 					}
@@ -603,7 +639,7 @@ func ruleLEXTOK(c *Ctx, r *Report) {
 				if a, ok := fa.X.(*ssa.Alloc); ok {
 					okBase = true
 					for _, ref := range *a.Referrers() {
-						if s2, ok := ref.(*ssa.Store); ok && s2.Addr == ssa.Value(a) {
+						if s2, ok := ref.(*ssa.Store); ok && s2.Addr == ssa.Value(a) && !selfCopy(s2) {
 							okBase = false
 						}
 					}
@@ -1818,6 +1854,24 @@ func (c *Ctx) tokArgAt(v ssa.Value, rk string, rv int64) string {
 			}
 		}
 		return fmt.Sprint(n)
+	}
+	// element of a package-level array table indexed by the rune
+	if ld, ok := v.(*ssa.UnOp); ok {
+		if ia, ok := ld.X.(*ssa.IndexAddr); ok {
+			if g, ok := ia.X.(*ssa.Global); ok && g.Pkg != nil {
+				tb := c.readTable(g.Pkg.Pkg.Path(), g.Name())
+				if tb.Err == "" && tb.Array {
+					for _, e := range tb.Entries {
+						if n, ok := constIntVal(e.Key); ok && n == rv {
+							if kv, ok := e.Val.(*ssa.Const); ok {
+								return strings.TrimPrefix(c.constName(kv), "lex.")
+							}
+						}
+					}
+					return "zero-value"
+				}
+			}
+		}
 	}
 	if lk, ok := v.(*ssa.Lookup); ok {
 		if ld, ok := lk.X.(*ssa.UnOp); ok {
